@@ -1358,3 +1358,53 @@ cache_harness! {
         new_wiring();
     }
 }
+
+// ------------------------------------------------------------------------------------------------
+// D6 (C06, C11): clear() issued by a client thread while the processor is between `policy.add` and
+// `store.try_insert` of a New item (well-nested interposition at the yield point, DESIGN 5.3)
+// ------------------------------------------------------------------------------------------------
+static mut RACE_P: *mut Parked<TransparentKeyBuilder<u64>> = std::ptr::null_mut();
+
+fn race_clear_hook(y: crate::verif_env::yp::Y) {
+    if y == crate::verif_env::yp::Y::ItemAfterPolicyAdd {
+        unsafe {
+            let p = &*RACE_P;
+            assert!(p.cache.clear().is_ok(), "clear() returns Ok");
+        }
+    }
+}
+
+cache_harness! {
+    [kani::unwind(6)]
+    fn c06_race_clear_in_new() {
+        let cfg = any_cfg();
+        let (mut p, _a, _b, _ents) = any_parked_n(TransparentKeyBuilder::<u64>::default(), 0, cfg, Some(true), 0);
+        let k = nd::any_u64();
+        let cost = nd::any_i64_in(0, 1 << 20);
+        nd::assume(p.policy.cap() >= cost + p.item_size() + (1 << 20));
+        #[cfg(kani)]
+        unsafe {
+            // there is room: the policy admits without victims (what the real add does: c07_add_rule_*)
+            crate::policy::verif_harness::psync::CONTRACT_TRIVIAL = true;
+            crate::policy::verif_harness::psync::CONTRACT_ADMIT = true;
+        }
+        let race = nd::any_bool();
+        unsafe {
+            RACE_P = &mut p as *mut _;
+        }
+        if race {
+            crate::verif_env::yp::install(race_clear_hook);
+        }
+        let r = p.proc_.handle_insert_event(Ok(Item::New { key: k, conflict: 0, cost, value: 2, expiration: time_at(clock::get(), Duration::ZERO) }));
+        crate::verif_env::yp::uninstall();
+        vassert!(r.is_ok(), "handling a New item does not fail");
+        // quiescence: the processor handles the clear signal, if any
+        let cleared = p.process_clear();
+        vassert!(cleared == race, "the clear signal is pending iff clear() was called");
+        vassert!(p.sp_ok(k), "at quiescence the key is resident iff charged, also when a clear() landed between the policy's admission and the store insert of that key");
+        vassert!(p.cache.len() == policy_len(&p.policy), "len() equals the number of charged entries at quiescence");
+        vcover!(race, "clear() interposed");
+        vcover!(!race, "no race");
+        std::mem::forget(p);
+    }
+}
